@@ -289,7 +289,7 @@ def check_item(item: tuple) -> dict:
             res["evaluations"] += 1
             res["classes"][label] = res["classes"].get(label, 0) + 1
             del ENTRIES[:]
-            before = {p.public_key.key_to_bin() for p in r_node.network.verified_peers}
+            before = {p.public_key.key_to_bin() for p in r_ov.network.verified_peers}
             sent_before = r_node.endpoint.sent_count
             exc = None
             try:
@@ -316,7 +316,7 @@ def check_item(item: tuple) -> dict:
                                                                        "seed": _SEED}))
                 else:
                     res["legal_entries"] += 1
-            after = {p.public_key.key_to_bin() for p in r_node.network.verified_peers}
+            after = {p.public_key.key_to_bin() for p in r_ov.network.verified_peers}
             grown = after - before
             if grown and target_kind in ("signed", "self-verifying") and not (authentic and grown <= {dkey}):
                 res["violations"].append((f"verified-peer-without-authentication:{name}:{label}",
@@ -330,9 +330,9 @@ def check_item(item: tuple) -> dict:
                                                                        "seed": _SEED}))
             # keep the receiver's state small: forget what valid variants taught it
             if grown:
-                for p in list(r_node.network.verified_peers):
+                for p in list(r_ov.network.verified_peers):
                     if p.public_key.key_to_bin() in grown:
-                        r_node.network.remove_peer(p)
+                        r_ov.network.remove_peer(p)
             del w.inflight[:]
 
         # the valid datagram itself must reach the handler (otherwise the whole item is vacuous)
@@ -343,6 +343,21 @@ def check_item(item: tuple) -> dict:
             res["valid_entered"] = True
         for label, m in mutations(d, ctxt, _THOROUGH):
             deliver(label, m)
+        # second pass: the sender's address already belongs to a *verified* peer (the genuine sender). A datagram that is
+        # authentic for ANOTHER key arriving from that address must be attributed to the key it carries, not to the
+        # peer known at the address (any lookup by address in the attribution path shows up as wrong-identity).
+        from ipv8.peer import Peer  # noqa: PLC0415
+        genuine = Peer(s_node.my_peer.public_key.key_to_bin(), src)
+
+        def deliver_known(label: str, data: bytes) -> None:
+            r_ov.network.add_verified_peer(genuine)
+            r_ov.network.get_verified_by_address(src)      # warm the reverse-address cache as normal traffic does
+            deliver(label, data)
+
+        deliver_known("valid|sender-verified", d)
+        for label, m in mutations(d, ctxt, False):
+            if label.startswith(("key-substituted", "signed-by-other-key", "signature-of-other", "payload-splice")):
+                deliver_known(label + "|sender-verified", m)
         res["sample"] = {"overlay": name, "msg_id": mid, "handler": handler_name, "curve": curve, "len": len(d),
                          "valid_prefix_hex": d[:40].hex()}
         return res
@@ -492,7 +507,7 @@ def replay(ctx: core.Ctx, data) -> list:  # noqa: ANN001
     try:
         raw = bytes.fromhex(data["data"])
         del ENTRIES[:]
-        before = {p.public_key.key_to_bin() for p in r_node.network.verified_peers}
+        before = {p.public_key.key_to_bin() for p in r_ov.network.verified_peers}
         try:
             r_node.endpoint.notify_listeners((s_node.address, raw))
             w.loop.settle()
@@ -503,7 +518,7 @@ def replay(ctx: core.Ctx, data) -> list:  # noqa: ANN001
         for ov, hname, pkey, k in ENTRIES:
             if k in overlays.SIGNED_WRAPPERS and (not dok or pkey != dkey):
                 out.append(core.Violation(f"unauthentic-entry:{name}:{hname}", f"{hname} entered; authentic={dok}"))
-        after = {p.public_key.key_to_bin() for p in r_node.network.verified_peers}
+        after = {p.public_key.key_to_bin() for p in r_ov.network.verified_peers}
         if (after - before) and not dok:
             out.append(core.Violation(f"verified-peer-without-authentication:{name}", "verified_peers grew"))
         return out
